@@ -226,9 +226,9 @@ static void eval_string(const std::vector< Factor > &f, const std::string &sep, 
     const double e = relerr(value, (double)rv);
     if (e <= tolv)
       A.max_val = std::max(A.max_val, e / tolv);
-    if (e > 0.1 * tolv)
-      ++A.near_product;
     value_ok = e <= tolv;
+    if (value_ok && e > 0.1 * tolv)
+      ++A.near_product;
     if (!value_ok)
       R.violation("C20:units:compound-product:" + cls,
                   fmt("get_unit(\"%s\") = %.17g but the product of the parts is %.17Lg (rel. diff %.3g, tol %.3g)",
